@@ -50,6 +50,13 @@ def check(tier, seed):
             for mode in ('pure', 'sha256', 'sha512', 'shake128'):
                 jobs.append(('sign', s, sk0, mim, b'x', mode, bytes(32)))
                 meta.append((s, mode, f"bytes:{sk0.hex()}", mim, b'x', bytes(32), 10 ** 6 + len(meta)))
+    # long messages in every mode (a pre-hash fed in pieces must absorb every byte): 64 KiB, 64 KiB + 1, 128 KiB
+    for s in fam.SETS:
+        sk0 = fam.keypair(s, fam.seeds(random.Random(seed), 1)[0])[1]
+        for ln, mode in ((65536, 'sha256'), (65536, 'sha512'), (65536, 'shake128'), (131072, ('sha256', 'sha512', 'shake128')[fam.SETS.index(s)]), (65537, 'pure'), (65536, 'pure')):
+            big = bytes((i * 5 + ln) % 253 for i in range(ln))
+            jobs.append(('sign', s, sk0, big, b'L', mode, bytes(32)))
+            meta.append((s, mode, f"bytes:{sk0.hex()}", big, b'L', bytes(32), 10 ** 6 + len(meta)))
     refs = fam.ref_map(jobs)
     cases = []
     for (s, mode, src, m, c, r, i), sig in zip(meta, refs):
